@@ -154,4 +154,34 @@ var props = map[string]propDef{
 		Thorough:       budget{Runs: 20000, Chunk: 100, Wall: 40 * time.Minute, PerChunkGrace: 5 * time.Minute},
 		MinimiseBudget: 60 * time.Second,
 	},
+	"C22": {
+		Binary: "dsim-sql", Harness: "C22", Level: "exploration",
+		Rule: "each run = 2-4 sessions (autocommit on/off drawn per session) on one branch of a fresh on-disk repository behind the production SQL engine; 20-70 statements (up to 160 in the thorough tier) interleaved at statement level by the seed; a row-level reference model keeps, per session, the snapshot taken at transaction start plus the session's own writes, and the branch state as the cell-wise three-way merge of acknowledged transactions in commit order. Every SELECT (full scan, by primary key, through index ia, through index ibc) must equal the session's snapshot plus own writes; uncommitted writes of other sessions never appear and committed ones only after the reader starts a new transaction; clean restarts in between. One evaluation = one checked read. Non-trivial = at least one transaction committed while another session with its own changes had an older snapshot; distinct by statement/outcome signature.",
+		Assumptions: []string{"statements are limited to forms the row-level reference model predicts exactly (literal INSERT, UPDATE/DELETE by key, UPDATE by indexed column, full / key / index reads, START TRANSACTION, COMMIT, ROLLBACK)", "one branch, one table with two secondary indexes, small value domains so that sessions collide"},
+		Real:        []string{"cmd/dolt/commands/engine (production SqlEngine via NewSqlEngineForEnv)", "go-mysql-server engine, analyzer, executor", "sqle / dsess (sessions, transactions, transaction merge at commit)", "doltdb, datas, prolly, nbs journaling store on the simulated OS"}, Stub: []string{"MySQL wire protocol and listener (sessions are created the way the handler does: own connection id, autocommit set explicitly)", "statement-level interleaving only (S0: one statement of one session at a time)", "stats / event scheduler / binlog background threads (left idle)", "clock (testing/synctest fake clock)"}, Persistence: "not used (clean restarts only)",
+		ExpectProbes:   []string{"commit_ok", "commit-merged-with-concurrent-transaction", "commit-conflict-refused", "clean-restart", "overlapping_transactions"},
+		Quick:          budget{Runs: 160, Chunk: 10, Wall: 150 * time.Second, PerChunkGrace: 120 * time.Second},
+		Thorough:       budget{Runs: 8000, Chunk: 40, Wall: 40 * time.Minute, PerChunkGrace: 5 * time.Minute},
+		MinimiseBudget: 90 * time.Second,
+	},
+	"C23": {
+		Binary: "dsim-sql", Harness: "C23", Level: "exploration",
+		Rule: "same world as C22 with more overlapping commits: each COMMIT's outcome is compared with the cell-wise rule (both sides changed the same cell to different values, or delete vs. modify => must be refused; the refused session's changes vanish), after a success the branch must equal merge(start, branch, mine); at the end and after every clean restart the table must equal the fold of all acknowledged transactions in commit order (no committed write lost). A refusal the model does not predict is counted, not reported. One evaluation = one checked read or final-state comparison.",
+		Assumptions: []string{"statements are limited to forms the row-level reference model predicts exactly (literal INSERT, UPDATE/DELETE by key, UPDATE by indexed column, full / key / index reads, START TRANSACTION, COMMIT, ROLLBACK)", "one branch, one table with two secondary indexes, small value domains so that sessions collide"},
+		Real:        []string{"cmd/dolt/commands/engine (production SqlEngine via NewSqlEngineForEnv)", "go-mysql-server engine, analyzer, executor", "sqle / dsess (sessions, transactions, transaction merge at commit)", "doltdb, datas, prolly, nbs journaling store on the simulated OS"}, Stub: []string{"MySQL wire protocol and listener (sessions are created the way the handler does: own connection id, autocommit set explicitly)", "statement-level interleaving only (S0: one statement of one session at a time)", "stats / event scheduler / binlog background threads (left idle)", "clock (testing/synctest fake clock)"}, Persistence: "not used (clean restarts only)",
+		ExpectProbes:   []string{"commit_ok", "commit-merged-with-concurrent-transaction", "commit-conflict-refused", "clean-restart"},
+		Quick:          budget{Runs: 160, Chunk: 10, Wall: 150 * time.Second, PerChunkGrace: 120 * time.Second},
+		Thorough:       budget{Runs: 8000, Chunk: 40, Wall: 40 * time.Minute, PerChunkGrace: 5 * time.Minute},
+		MinimiseBudget: 90 * time.Second,
+	},
+	"C25": {
+		Binary: "dsim-sql", Harness: "C25", Level: "exploration",
+		Rule: "same world as C22 with index-heavy reads, UPDATE through an index and ADD/DROP INDEX: after every write statement, inside the writing session's own transaction, every lookup through index ia (each value and NULL) and a covering range scan over index ibc are compared entry for entry with the table scan of the same session; again at the end through a fresh session, i.e. after the transaction-commit merges rebuilt the secondary indexes. One evaluation = one index-vs-table comparison.",
+		Assumptions: []string{"statements are limited to forms the row-level reference model predicts exactly (literal INSERT, UPDATE/DELETE by key, UPDATE by indexed column, full / key / index reads, START TRANSACTION, COMMIT, ROLLBACK)", "one branch, one table with two secondary indexes, small value domains so that sessions collide"},
+		Real:        []string{"cmd/dolt/commands/engine (production SqlEngine via NewSqlEngineForEnv)", "go-mysql-server engine, analyzer, executor", "sqle / dsess (sessions, transactions, transaction merge at commit)", "doltdb, datas, prolly, nbs journaling store on the simulated OS"}, Stub: []string{"MySQL wire protocol and listener (sessions are created the way the handler does: own connection id, autocommit set explicitly)", "statement-level interleaving only (S0: one statement of one session at a time)", "stats / event scheduler / binlog background threads (left idle)", "clock (testing/synctest fake clock)"}, Persistence: "not used (clean restarts only)",
+		ExpectProbes:   []string{"commit_ok", "commit-merged-with-concurrent-transaction", "add-index", "drop-index"},
+		Quick:          budget{Runs: 160, Chunk: 10, Wall: 150 * time.Second, PerChunkGrace: 120 * time.Second},
+		Thorough:       budget{Runs: 8000, Chunk: 40, Wall: 40 * time.Minute, PerChunkGrace: 5 * time.Minute},
+		MinimiseBudget: 90 * time.Second,
+	},
 }
